@@ -51,13 +51,16 @@ func (bucket *Bucket) UUID() (string, error) {
 func (bucket *Bucket) Close(_ context.Context) {
 	traceEnter("Bucket.Close", "%s", bucket)
 
+	bucket.mutex.Lock()
+	alreadyClosed := bucket.closed
+	bucket.closed = true
+	bucket.mutex.Unlock()
+	if alreadyClosed {
+		return // closing a handle twice must not release the reference of another handle
+	}
+
 	unregisterBucket(bucket)
 	verifPoint("close.unregistered", bucket.name)
-
-	bucket.mutex.Lock()
-	defer bucket.mutex.Unlock()
-
-	bucket.closed = true
 }
 
 // _closeSqliteDB closes the underlying sqlite database and shuts down dcpFeeds. Must have a lock to call this function.
@@ -78,6 +81,7 @@ func (bucket *Bucket) CloseAndDelete(ctx context.Context) (err error) {
 	bucket.mutex.Lock()
 	defer bucket.mutex.Unlock()
 	verifPoint("closedelete.locked", bucket.name)
+	bucket.closed = true
 	bucket._closeSqliteDB()
 	return deleteBucket(ctx, bucket)
 }
